@@ -63,8 +63,37 @@ def value_table() -> dict:
     return dict(name="tv", cols=[("rid", "int"), ("x", "int"), ("y", "int"), ("p", "bool"), ("q", "bool"), ("f", "float")], rows=rows)
 
 
+SIGMA = ["a", "b", "'", '"', "\\", "%", "_", "-", ";", "/", "*", " ", "\n", "\u00e9", ".", "$", "^", "(", "[", "+", "?", "|", "{"]
+DIGRAPHS = ["--", "/*", "';", "\\'", "%%", "__", "$0", ".*", "a%", "_b"]
+
+
+def string_table() -> dict:
+    """index 10: text data over every SQL / LIKE / regex metacharacter (C18)"""
+    data = SIGMA + DIGRAPHS + ["a'b", "a%b", "a_b", "ab", "a.b", "a\\b", "", "b--a", "aab", "ba", "abab", "a(b", "x' OR '1'='1", "a;b", None]
+    rows = [[i + 1, v, len(v) if v is not None else None] for i, v in enumerate(data)]
+    return dict(name="ts", cols=[("rid", "int"), ("s", "str"), ("n", "int")], rows=rows)
+
+
+def cast_table() -> dict:
+    """index 11: boundary values for the documented casts (C17)"""
+    ints = [None, 0, 1, -1, 7, -65, 1000, -1000, 999999]
+    floats = [None, (0, 1), (1, 2), (-1, 2), (7, 4), (-7, 4), (5, 2), (-5, 2), (1000, 1), (-999, 1)]
+    bools = [None, True, False]
+    nums = [None, "0", "12", "-7", "007", "+5", "1000", "-0", "65"]
+    fnums = [None, "0.5", "-0.25", "3.5", "10.0", "12", "-7", "007.50", "+2.5"]
+    dates = [None, ("date", 1970, 1, 1), ("date", 2000, 2, 29), ("date", 2024, 12, 31), ("date", 1999, 9, 9)]
+    dts = [None, ("dt", 1970, 1, 1, 0, 0, 0, 0), ("dt", 2000, 2, 29, 23, 59, 59, 999999), ("dt", 2024, 12, 31, 12, 0, 1, 500000),
+           ("dt", 1999, 9, 9, 9, 9, 9, 9)]
+    rows = []
+    for r in range(18):
+        rows.append([r + 1, ints[r % len(ints)], floats[r % len(floats)], bools[r % 3], nums[r % len(nums)], fnums[r % len(fnums)],
+                     dates[r % len(dates)], dts[r % len(dts)]])
+    return dict(name="tc", cols=[("rid", "int"), ("i", "int"), ("f", "float"), ("b", "bool"), ("sn", "str"), ("sf", "str"),
+                                 ("d", "date"), ("dt", "datetime")], rows=rows)
+
+
 def all_sources(seed: int) -> list[dict]:
-    return FIXED + seeded(seed) + EXTRA + [value_table()]
+    return FIXED + seeded(seed) + EXTRA + [value_table(), string_table(), cast_table()]
 
 
 def col_id(src_index: int, col_index: int) -> int:
@@ -81,8 +110,12 @@ def tla_value(v) -> str:
         return "FALSE"
     if isinstance(v, int):
         return str(v)
-    if isinstance(v, str):
-        return '"' + v + '"'
+    if isinstance(v, str):   # text = sequence of code points
+        return "<<" + ", ".join(str(ord(c)) for c in v) + ">>"
+    if isinstance(v, tuple) and v and v[0] == "date":
+        return f"[y |-> {v[1]}, m |-> {v[2]}, d |-> {v[3]}]"
+    if isinstance(v, tuple) and v and v[0] == "dt":
+        return f"[y |-> {v[1]}, m |-> {v[2]}, d |-> {v[3]}, H |-> {v[4]}, M |-> {v[5]}, S |-> {v[6]}, us |-> {v[7]}]"
     if isinstance(v, tuple):  # rational
         return f"[n |-> {v[0]}, d |-> {v[1]}]"
     raise TypeError(v)
